@@ -129,6 +129,8 @@ class Ledger:
         self.pushes = collections.defaultdict(list)   # node_id -> [(t, item, edge_idx)]
         self.offers = {}          # id(item),node_id -> first offer time
         self.canput = []          # (t, node_id, edge_id, answer, room_pred)
+        self.asks = {}            # id(item) -> [(t, edge_id, answer, room)] : can_put questions asked on behalf of that item
+        self.discard_asks = []    # (t, node_id, item, [asks of that item in this instant])
         self.draws = collections.defaultdict(list)    # point name -> [(t, value)]
         self.occ_hist = collections.defaultdict(list)  # edge_id -> [(t, occupancy after event)]
         self.crash = None
@@ -210,6 +212,8 @@ class Ledger:
         if new != old + 1:
             self.V("C09", "discard-count-by-one", "%s changed its discard counter from %r to %r" % (node.id, old, new), node=type(node).__name__)
         self.discards.append((self.env.now, node.id, it))
+        if it is not None:
+            self.discard_asks.append((self.env.now, node.id, it, [a for a in self.asks.get((id(it), node.id), []) if abs(a[0] - self.env.now) < 1e-9]))
         if it is not None:
             l = self.loc.get(id(it))
             if l is not None and l[0] in ("node", "source") and l[1] == node.id:
@@ -317,6 +321,8 @@ class Ledger:
                         if it is not None and node is not None:
                             led.offers.setdefault((id(it), node.id), led.env.now)
                         led.canput.append((led.env.now, led.nid(node), e.id, bool(ans), led.room(e), tuple(led.live_tokens(e, "p", "granted"))))
+                        if it is not None:
+                            led.asks.setdefault((id(it), led.nid(node)), []).append((led.env.now, e.id, bool(ans), led.room(e)))
                     led.events.append((led.env.now, q, e.id, led.nid(node), None, bool(ans)))
                     return ans
                 return f
